@@ -34,6 +34,117 @@ class Recorder:
         self.ia.Emulsion = self.orig
 
 
+# ---- input dimensions shared by the C01 / C02 streams (notes/input_dimensions.md) ---------------
+# dtypes in which a 0/1 image is handed over besides the reference dtype (bool mask / float64 field)
+MASK_DTYPES = ["uint8", "int64", "float32", "float64"]
+FIELD_DTYPES = ["float32", "int64", "uint8", "bool"]
+ORIGIN_KINDS = ["mixed", "mixed", "zero", "centred", "positive", "negative"]
+
+
+def axis_origin(rng, n, h, kind=None):
+    """Lower bound of an axis with n cells of width h (all values dyadic): zero, centred box, shifted positive,
+    entirely negative coordinates, or anywhere in [-4, 4].  Returns (lo, kind)."""
+    kind = kind or rng.choice(ORIGIN_KINDS)
+    L = n * h
+    if kind == "zero":
+        lo = 0.0
+    elif kind == "centred":
+        lo = -L / 2
+    elif kind == "positive":
+        lo = rng.randrange(1, 17) / 4.0
+    elif kind == "negative":
+        lo = -L - rng.randrange(0, 17) / 4.0
+    else:
+        lo = rng.randrange(-16, 17) / 4.0
+    return lo, kind
+
+
+def order_of(vals):
+    """'equal' / 'larger first' / 'larger last' / 'middle differs' for a per-axis tuple (cell counts, spacings)"""
+    vals = list(vals)
+    if len(vals) == 1:
+        return "1-d"
+    if all(v == vals[0] for v in vals):
+        return "equal"
+    if vals[0] > vals[-1]:
+        return "larger first"
+    if vals[0] < vals[-1]:
+        return "larger last"
+    return "middle differs"
+
+
+def count_grid(ctx, grid, origin_kinds=None, prefix=""):
+    """histogram keys of the grid geometry dimensions"""
+    per = [bool(p) for p in grid.periodic]
+    ctx.count(prefix + "periodicity_pattern", "".join("P" if p else "N" for p in per))
+    ctx.count(prefix + "cell_count_order", order_of(grid.shape))
+    ctx.count(prefix + "spacing_order", order_of([float(h) for h in grid.discretization]))
+    ctx.count(prefix + "min_cells_per_axis", min(grid.shape) if min(grid.shape) < 4 else ">=4")
+    for k in origin_kinds or []:
+        ctx.count(prefix + "origin_kind_per_axis", k)
+    los = [b[0] for b in grid.axes_bounds]
+    his = [b[1] for b in grid.axes_bounds]
+    ctx.count(prefix + "coordinates", "all negative" if all(hi <= 0 for hi in his) else
+              "all positive" if all(lo >= 0 for lo in los) else "mixed signs")
+
+
+def simulate_remove_overlapping(M, radii, stale_radius_cache=False):
+    """Emulsion.remove_overlapping() on the recorded surface-distance matrix (indices of the kept droplets).
+    With stale_radius_cache the radii are looked up by the CURRENT position in a never-updated array: the
+    evidence counts on how many inputs such a variant would decide differently (seeded change C02-3)."""
+    n = len(radii)
+    if n == 0 or M is None:
+        return list(range(n))
+    d = np.array(M, float).copy()
+    np.fill_diagonal(d, np.inf)
+    ids = list(range(n))
+    while len(d) > 1:
+        x, y = np.unravel_index(np.argmin(d), d.shape)
+        if not d[x, y] < 0:
+            break
+        rx, ry = (radii[x], radii[y]) if stale_radius_cache else (radii[ids[x]], radii[ids[y]])
+        i = y if rx > ry else x
+        ids.pop(i)
+        d = np.delete(np.delete(d, i, 0), i, 1)
+    return ids
+
+
+def count_removals(ctx, rec_M, radii, out, prefix=""):
+    n_removed = len(radii) - len(out)
+    ctx.count(prefix + "overlap_removals", n_removed if n_removed < 3 else ">=3")
+    if n_removed >= 1 and rec_M is not None:
+        stale = simulate_remove_overlapping(rec_M, radii, True)
+        ctx.count(prefix + "removal_order_sensitive_to_stale_radii", stale != list(out))
+
+
+def emulsion_key(em):
+    """exact (bitwise) content of an emulsion of spherical droplets, or a description of a result of the wrong kind"""
+    from droplets import Emulsion, SphericalDroplet
+    if not isinstance(em, Emulsion):
+        return f"result of class {type(em).__name__}, not an Emulsion"
+    key = []
+    for d in em:
+        if type(d) is not SphericalDroplet:
+            return f"member of class {type(d).__name__}, not SphericalDroplet"
+        vals = [float(x) for x in np.ravel(d.position)] + [float(d.radius)]
+        if np.iscomplexobj(d.position) or np.iscomplexobj(d.radius) or not all(np.isfinite(vals)):
+            return f"non-finite or complex droplet data {vals}"
+        key.append(tuple(v.hex() for v in vals))
+    return key
+
+
+def same_result(em_ref, em_other, what):
+    """None if both calls returned bitwise the same droplets in the same order, else a failure description"""
+    a, b = emulsion_key(em_ref), emulsion_key(em_other)
+    if isinstance(b, str):
+        return f"{what}: {b}"
+    if a != b:
+        return (f"{what}: result differs from the reference call: "
+                f"{[(list(map(float, np.ravel(d.position))), float(d.radius)) for d in em_other]} instead of "
+                f"{[(list(map(float, np.ravel(d.position))), float(d.radius)) for d in em_ref]}")
+    return None
+
+
 def grid_lit(grid):
     axes = []
     for (lo, hi), n, per in zip(grid.axes_bounds, grid.shape, grid.periodic):
@@ -139,7 +250,9 @@ def oracle_cart(grid, mask, em, rec):
     # match candidates to components by volume + position
     unused = list(range(len(cands)))
     cand_of = {}
-    for ci, comp in enumerate(comps):
+    # components whose position is specified (non-winding) choose first: a winding component of the same volume must
+    # not take the candidate that belongs to one of them
+    for ci, comp in sorted(enumerate(comps), key=lambda ic: ic[1]["lifted"] is None):
         vol = len(comp["cells"]) * cellvol
         ok = None
         for k in unused:
@@ -250,10 +363,14 @@ def oracle_cyl(grid, mask, em, cands, kept):
                 okk = k
                 break
         if okk is None:
-            k = match_v[0]
-            d = cands[k][0] - com_unweighted
-            if per:
-                d = (d + L / 2) % L - L / 2
+            # several components can have exactly the same volume (e.g. discs of 3 and 4 cells radius joined across the
+            # boundary and a disc of 5 cells): among the candidates of that volume prefer the one at the unweighted mean
+            # (failure class F27) before calling it a wrong position
+            def off_unweighted(k):
+                d = cands[k][0] - com_unweighted
+                return abs((d + L / 2) % L - L / 2 if per else d)
+            k = min(match_v, key=off_unweighted)
+            d = off_unweighted(k)
             cls = "position is not the volume-weighted centre of mass" if abs(d) <= 1e-9 * (1 + L) else "position"
             out.append((cls, f"component {sorted(comp['cells'])[:5]}...: z={cands[k][0]}, centre of mass {com} (unweighted mean {com_unweighted})"))
             okk = k
